@@ -254,6 +254,15 @@ class World:
         obj = self.prog.obj[op["node"]]
         o = copy.deepcopy(op["o"]) if o_obj is None else o_obj
         snap = crepr(o)
+        as_mapping = (self.spec.get("env") or {}).get("mapping") if isinstance(self.spec, dict) else None
+        if as_mapping:
+            # the options are a Mapping, not necessarily a dict (labrea's Options type): a view over the caller's dictionary
+            import collections
+
+            inner = o
+            o = collections.ChainMap(inner) if as_mapping == "chainmap" else collections.UserDict(inner)
+            if as_mapping == "userdict":
+                o.data = inner  # (a view, not a copy: the mutation monitor looks at the caller's own dictionary)
         try:
             if kind == "evaluate":
                 res = obj.evaluate(o)
@@ -271,7 +280,7 @@ class World:
                 out = Outcome(True, repr(sorted(res)))
         except Exception as e:  # noqa: BLE001 — every failure is an outcome
             out = Outcome(False, err=classify(e), exc=e)
-        if crepr(o) != snap:
+        if crepr(dict(o) if as_mapping else o) != snap:
             self.mutations.append((self.op_index, "caller-dict", op["node"]))
         for owner, role in self.prog.mutated_presets():
             self.mutations.append((self.op_index, "preset", owner, role))
